@@ -298,11 +298,6 @@ impl<H: MsgHeader> Endpoint<H> {
             iov_base: rbuf.as_mut_ptr() as *mut c_void,
             iov_len: len,
         }];
-        #[cfg(feature = "verif-hooks")]
-        // SAFETY: Safe because we own rbuf and it's safe to fill a byte array with arbitrary data.
-        if let Some(res) = unsafe { crate::verif::recv(&self.sock, &mut iovs, &mut []) } {
-            return Ok((res?.0, rbuf));
-        }
         // SAFETY: Safe because we own rbuf and it's safe to fill a byte array with arbitrary data.
         let (bytes, _) = unsafe { self.sock.recv_with_fds(&mut iovs, &mut [])? };
         Ok((bytes, rbuf))
